@@ -32,7 +32,7 @@ from parsers import *
 LEVEL = 'other'
 EXPLANATION = __doc__
 ASSUMPTIONS = ['String::push/push_str/truncate and str::trim_end behave as documented']
-FLOORS = {'W.width': 5, 'O.once': 2, 'C.constants': 5, 'F.full': 2, 'P.width-source': 3, 'S.splitter': 4, 'K.cursor': 2, 'K.skip-pairing': 3}
+FLOORS = {'W.width': 5, 'O.once': 2, 'C.constants': 5, 'F.full': 3, 'P.width-source': 3, 'S.splitter': 4, 'K.cursor': 2, 'K.skip-pairing': 3}
 
 def run(ctx):
     cfgs = ['none', 'dull'] if ctx.tier == 'quick' else ['none', 'dull', 'bright', 'all']
@@ -218,6 +218,13 @@ def console(ctx, cfg, fs):
     par = csw.target('Paragraph')
     ok = len(fsw) == 1 and only_via_edge(b, csw.b, par, fsw[0].b)
     ctx.ob('F.full', 'render_console:full-only-after-paragraph', ok, '`full` is tested in exactly one place, inside the Paragraph arm (%d test(s)): %s' % (len(fsw), ok), where=b.where(), cfg=cfg)
+    # ... and every paragraph break gets there: no way from the Paragraph arm to the next chunk (or out of the function) around the test
+    nxt = [c.bb for c in b.calls() if c.is_(r'Splitter.*Iterator>?::next$') or c.is_(r'Iterator>?::next$')]
+    if len(fsw) == 1:
+        around = reachable_edges(b, par, avoid=[fsw[0].b])
+        leak = sorted(x for x in around if x in nxt or b.term(x)['k'] == 'return')
+        ctx.ob('F.full', 'render_console:every-paragraph-break-asks-full', par is not None and not leak and bool(nxt),
+               'from the Paragraph arm every way to the next chunk passes the `full` test (a paragraph break that is not seen leaves the short form running into the second paragraph): %s' % ([b.where(x) for x in leak] or 'ok'), where=b.where(par if par is not None else 0), cfg=cfg)
     en = [c for c in b.calls() if c.is_(r'buffer::Skip::enable$')]
     ok2 = len(en) == 1 and len(fsw) == 1 and any(only_via_edge(b, fsw[0].b, t, en[0].bb) for o, t in fsw[0].edges.items())
     uses_full = [1 for c in b.calls() for a in c.args for r in provenance(b, a, c.bb, 'term', through=None) if r.kind == 'param' and r.what == 'full']
